@@ -502,11 +502,11 @@ def _chat_run(self):
             # lazy %-formatting with an argument that cannot be pickled
             labtech.logger.info(tok(act[1]) + ' %s %s', threading.Lock(), len)
         elif kind == 'print':
-            print(tok(act[1]), flush=bool(act[2]))
+            print((act[3] if len(act) > 3 else '') + tok(act[1]), flush=bool(act[2]))      # act[3]: leading whitespace (an indented row)
         elif kind == 'err':
             sys.stderr.write(tok(act[1]))
         elif kind == 'errln':
-            print(tok(act[1]), file=sys.stderr)
+            print((act[2] if len(act) > 2 else '') + tok(act[1]), file=sys.stderr)
         elif kind == 'flush':
             sys.stdout.flush()
             sys.stderr.flush()
